@@ -369,3 +369,68 @@ def ctxpool_replay(replay):
         return 0
     finally:
         sc.close()
+
+
+# ---------------------------------------------------------------------------
+# C20
+
+def run_c20(tier, seed, replay=None):
+    pid = "C20"
+    t0 = time.time()
+    q = tier == "quick"
+    sc = Scratch()
+    try:
+        zx = build_harness(("verif",))
+        zxr = build_harness(("verif",), race=True)
+        known = load_known()
+        cfg = "RefCountQ.cfg" if q else "RefCount.cfg"
+        outp, st = tlc(sc, "RefCount", cfg=cfg, workers=8, timeout=1800, outname="rc.out")
+        errs = tlc_errors(outp)
+        if errs:
+            raise Inconclusive("RefCount model: " + "; ".join(errs[:3]))
+        cnt = split_printed(outp, sc, {"WALK": ("walks.ndjson", "lines"), "TABLES": ("tables.json", "one")})
+        os.remove(outp)
+        if cnt["WALK"] == 0:
+            raise Inconclusive("RefCount model emitted no walks")
+        if replay:
+            obj = json.load(open(replay))
+            with open(sc.path("walks.ndjson"), "w") as fh:
+                fh.write(json.dumps(obj["diff"]["walk"]) + "\n")
+        diffs, tot = [], {"ops": 0, "stress_rounds": 0}
+        for exe, walks, rounds, name in ((zx, sc.path("walks.ndjson"), 2, "seq"), (zxr, "/dev/null", 8 if q else 150, "race")):
+            p = subprocess.run([exe, "refcount", "-in", walks, "-tables", sc.path("tables.json"), "-dir", sc.path("segs-" + name),
+                                "-out", sc.path("diffs-%s.ndjson" % name), "-n", str(rounds)],
+                               stdout=subprocess.PIPE, stderr=subprocess.STDOUT, text=True, timeout=3600)
+            if "WARNING: DATA RACE" in p.stdout:
+                r = p.stdout[p.stdout.index("WARNING: DATA RACE"):][:4000]
+                diffs.append({"walk": {"ops": []}, "step": -3, "what": "data race (race detector)", "got": r, "want": ""})
+            elif p.returncode != 0:
+                raise Inconclusive("harness refcount failed: " + p.stdout[-1500:])
+            rs = kv(p.stdout)
+            tot["ops"] += rs.get("ops", 0)
+            tot["stress_rounds"] += rs.get("stress_rounds", 0)
+            log("R(%s): %s" % (name, p.stdout.strip()[-200:]))
+            diffs += read_diffs(sc.path("diffs-%s.ndjson" % name))
+        if tot["ops"] == 0:
+            raise Inconclusive("vacuous refcount replay")
+        if replay:
+            if diffs:
+                log("replay: " + trunc(diffs[0], 800))
+                log("VIOLATION property=%s replay=%s" % (pid, replay))
+                return 1
+            log("replay: no violation of %s on the current tree" % pid)
+            return 0
+        with open(sc.path("walks.ndjson")) as fh:
+            lines = fh.readlines()
+        cov = {"family": "refcount", "states": st["distinct_states"], "transitions": st["states_generated"],
+               "traces_validated_against_impl": cnt["WALK"], "samples": [json.loads(lines[len(lines) // 2]), json.loads(lines[-1])],
+               "model": {"module": "RefCount.tla", "cfg": cfg, "invariants": ["RefSafe"], "wall_s": st["wall_s"]},
+               "walks": cnt["WALK"], "operations_replayed": tot["ops"], "concurrent_rounds": tot["stress_rounds"],
+               "configurations": "every behaviour of AddRef/DecRef/Close/read by 2 (quick) / 3 (thorough) holders that releases the last reference, replayed on a fresh copy of a real file; /proc/self/maps and /proc/self/fd inspected and a complete read made after every operation; concurrent holders and readers under -race",
+               "evaluations": tot["ops"], "distinct_nontrivial": cnt["WALK"],
+               "rule": "one evaluation = one reference operation followed by /proc inspection and a complete read; distinct = distinct operation sequences", "exhaustive": True}
+        assumptions = ["holders call AddRef/DecRef/Close only while they own a reference (balanced use)",
+                       "Linux /proc/self/maps and /proc/self/fd describe the process's mappings and descriptors"]
+        return finish(pid, tier, seed, t0, cov, assumptions, diffs, lambda d: "refcount/" + d["what"], known, lambda d: d)
+    finally:
+        sc.close()
